@@ -523,6 +523,11 @@ included, any order, repetitions allowed).  The class the object is added as, `n
 def dispatch (mro : List PubClass) : Option PubClass :=
   dispatchOrder.find? (fun c => mro.contains c)
 
+/-- the object's class derives from the public element class `c` and from no other public one: the
+hypothesis of `Props.C06.dispatch_subclass` / `ctor_objects_same_rules`, decided on the bases read
+from the real object's class (`Props.C06.only_decides`) -/
+def onlyB (mro : List PubClass) (c : PubClass) : Bool := !mro.isEmpty && mro.all (fun x => x == c)
+
 /-- The element list `createBuilder` works on, for a list of objects of arbitrary classes: each
 object read through the public class its dispatch selects (`read o c`), others are `foreign`. -/
 def elemsOf {Obj : Type} (mro : Obj → List PubClass) (read : Obj → PubClass → Elem) (os : List Obj) : List Elem :=
